@@ -610,7 +610,9 @@ func (i *uinteger) BitWidth() BitWidth          { return i.t }
 func (i *uinteger) Validate(ctx ValidateCtx, path []string, s string) error {
 	var ui uint64
 	var e error
-	ui, e = strconv.ParseUint(s, 10, int(i.t))
+	// An integer is an optional sign followed by digits (RFC 6020 section
+	// 9.2.1), also for the unsigned types; ParseUint accepts no sign.
+	ui, e = strconv.ParseUint(strings.TrimPrefix(s, "+"), 10, int(i.t))
 	if e != nil {
 		goto out
 	}
